@@ -9,7 +9,7 @@ import pickle
 
 import numpy as np
 
-from .common import NP_QUICK, Scenario, ask, is_nan, pyval, trained
+from .common import LABELS, NP_QUICK, Scenario, ask, is_nan, pyval, trained
 
 
 def first_argmax(env, tag, arms, exps, pred):
@@ -23,8 +23,20 @@ def first_argmax(env, tag, arms, exps, pred):
     env.ob(tag + '.first_argmax', env.and_(*conds))
 
 
-def argmax_consistency(env, lp, npol, N, A, d, m, labels='int', partial=0, nnp=None, twin=False):
+def argmax_consistency(env, lp, npol, N, A, d, m, labels='int', partial=0, nnp=None, twin=False, life=''):
     mab, hp, data, ctxd = trained(env, lp, npol, N, A, d, labels, partial=partial)
+    # an earlier life of the very bandit that is copied below: it answers queries itself (Q), loses its first arm (R) and
+    # gets a new one (A) - caches filled by the queries must not survive the arm changes
+    spare = list(LABELS[labels][A:])
+    for k, op in enumerate(life):
+        if op == 'Q':
+            q0 = env.reals('q0_%d' % k, (1, d)) if ctxd else None
+            ask(mab, 'predict', q0)
+            ask(mab, 'expectations', q0)
+        elif op == 'R':
+            mab.remove_arm(mab.arms[0])
+        elif op == 'A':
+            mab.add_arm(spare.pop(0))
     if nnp is not None and npol and (npol.startswith('radius') or npol.startswith('lsh')):
         mab._imp.no_nhood_prob_of_arm = list(nnp)
     arms = [pyval(a) for a in mab.arms]
@@ -87,6 +99,11 @@ def scenarios(tier):
         for m in (1, 2):
             out.append(Scenario('%s.none.m%d' % (lp, m), argmax_consistency,
                                 dict(lp=lp, npol=None, N=3, A=3 if m == 1 else 2, d=1 if q else 2, m=m), weight=40 * m))
+    for lp in (['linucb', 'lingreedy0', 'ucb1'] if q else ['linucb', 'lingreedy', 'lints', 'ucb1', 'softmax', 'greedy',
+                                                           'thompson', 'popularity']):
+        out.append(Scenario('%s.none.after_QRA' % lp, argmax_consistency,
+                            dict(lp=lp, npol=None, N=2, A=3, d=1, m=1, life='QRA'), weight=80,
+                            shards=4, bounds=dict(lp=lp, history='fit, query on the bandit itself, remove_arm, add_arm')))
     nps = list(NP_QUICK)
     if not q:
         nps += ['radius:sqeuclidean', 'knearest:1:chebyshev', 'lsh:2:1', 'clusters:2:mini', 'radius:euclidean']
